@@ -176,6 +176,42 @@ def run(ctx):
         if not ok and nv < 8:
             ctx.violation("oracle", {"kind": "cli", "files": r.files, "argv": r.argv, "run": r.describe()}, "layout %s: the emitted packages do not build together: %s" % (name, log[-400:]))
             nv += 1
+    # regeneration: the file a successful run leaves at its output path is the program it generated, whatever the path held before
+    # (an earlier, longer generation; a file of another package): it is identical to the output of a run towards a fresh path, and builds
+    big = {"type": "object", "required": ["name"], "properties": dict({"name": {"type": "string", "minLength": 1, "pattern": "^[a-z]+$"}},
+                                                                      **{"p%d" % i: {"type": "integer", "minimum": i, "maximum": 100 + i} for i in range(12)})}
+    small = {"type": "object", "properties": {"name": {"type": "string"}}}
+    regen = []
+    for oi, opts in enumerate(([], ["--only-models"], ["--extra-imports"])):
+        fresh_big = Run("rgb%d" % oi, {"in/s.json": json.dumps(big)}, ["-p", "pkg"] + opts + ["-o", "out/gen.go", "in/s.json"])
+        fresh_small = Run("rgs%d" % oi, {"in/s.json": json.dumps(small)}, ["-p", "pkg"] + opts + ["-o", "out/gen.go", "in/s.json"])
+        regen.append((oi, opts, fresh_big, fresh_small))
+    run_all(ctx, [r for _, _, a, b2 in regen for r in (a, b2)])
+    second = []
+    for oi, opts, fb, fsm in regen:
+        if fb.status != 0 or fsm.status != 0 or "out/gen.go" not in fb.created or "out/gen.go" not in fsm.created:
+            continue
+        for hn, old_text in (("earlier-longer-generation", fb.created["out/gen.go"]), ("file-of-another-package", b"package other\n\nvar Kept = 1\n" + b"// x\n" * 3000)):
+            second.append((oi, opts, hn, fsm.created["out/gen.go"],
+                           Run("rg2_%d_%s" % (oi, hn[:4]), {"in/s.json": json.dumps(small), "out/gen.go": old_text}, ["-p", "pkg"] + opts + ["-o", "out/gen.go", "in/s.json"])))
+    run_all(ctx, [x[4] for x in second])
+    for oi, opts, hn, want, r in second:
+        ctx.count({"regen": hn, "opts": opts}, True, "compile/regeneration")
+        if r.status != 0:
+            continue
+        got = r.modified.get("out/gen.go", r.created.get("out/gen.go"))
+        if got is None:
+            got = r.files["out/gen.go"]           # left untouched
+        if isinstance(got, str):
+            got = got.encode()
+        if got != want:
+            ok, log = c20.build_outputs(ctx, "c01" + r.rid, {"out/pkg/gen.go": got})
+            if nv < 8:
+                ctx.violation("oracle", {"kind": "cli", "files": {k: (v if isinstance(v, str) else v.decode("utf-8", "replace"))[:3000] for k, v in r.files.items()}, "argv": r.argv, "history": hn,
+                                         "builds": ok, "build_log": log[-600:]},
+                              "a successful run over an output path that held %s leaves %d bytes where a run towards a fresh path writes %d: %s"
+                              % (hn.replace("-", " "), len(got), len(want), "the file does not build: " + log[-300:] if not ok else "not the program the run generated"))
+            nv += 1
     ctx.cov["families"].update({("compile/" + k): dict(ctx.cov["families"].get("compile/" + k, {}), **v) for k, v in stats.items()})
     ctx.cov["disagreements_checked"] = len(meta)
     from vlib import regress
